@@ -390,4 +390,3 @@ func runC20(c *Ctx) {
 		c.undecided("ANCHOR", "mstr.CompareNatural", 0, "not found")
 	}
 }
-
